@@ -51,9 +51,12 @@ func (r *requestContext) Finalize(_ rule.Backend) error {
 
 	zerolog.Ctx(r.AppContext()).Debug().Msg("Creating response")
 
-	uh := r.UpstreamHeaders()
-	for k := range uh {
-		r.rw.Header().Set(k, uh.Get(k))
+	for k, values := range r.UpstreamHeaders() {
+		r.rw.Header().Del(k)
+
+		for _, value := range values {
+			r.rw.Header().Add(k, value)
+		}
 	}
 
 	for k, v := range r.UpstreamCookies() {
